@@ -205,14 +205,41 @@ def all_cases(prop, tier, seed):
             yield _repo_tests.case(which, seed * 100 + j)
 
 
+PYMODE_TEXT = {"O": "python -O (assertions and __debug__ blocks compiled away)",
+               "W": "warnings attributed to lena modules turned into errors"}
+
+
+HEAD_WARNINGS = [r"(ISlice|GroupPlots|Writer) is deprecated since Lena",
+                 r"empty results produced in MapGroup",
+                 r"\d+-dimensional hist_to_csv not implemented",
+                 r".* should not be an absolute path",
+                 r"the only element of Source is an iterable"]
+
+
+def set_pymode():
+    """Warning filters of this process; returns the interpreter mode it runs in."""
+    mode = os.environ.get("RV_PYMODE", "")
+    warnings.simplefilter("ignore")
+    if mode == "W":
+        warnings.filterwarnings("error", module=r"lena(\..*)?$")
+        # the warnings the framework documents (unsupported input, deprecated names) stay
+        # warnings: a user who turns them into errors has asked for those failures
+        for msg in HEAD_WARNINGS:
+            warnings.filterwarnings("ignore", message=msg)
+    if mode == "O" and __debug__:
+        raise RuntimeError("mode O requested but the interpreter runs with assertions on")
+    return mode
+
+
 def main(argv):
     pid, tier, seed, k, K, out = argv
     seed, k, K = int(seed), int(k), int(K)
-    warnings.simplefilter("ignore")
+    mode = set_pymode()
+    stride = int(os.environ.get("RV_MODE_STRIDE", "1")) if mode else 1
     import lena  # noqa
     lena_path = os.path.realpath(lena.__path__[0])
-    assert lena_path == os.path.realpath(os.path.join(REPO, "lena")), \
-        "lena imported from %s, expected %s" % (lena_path, REPO)
+    if lena_path != os.path.realpath(os.path.join(REPO, "lena")):
+        raise RuntimeError("lena imported from %s, expected %s" % (lena_path, REPO))
     prop = load_prop(pid)
     _install_monitors()
     if hasattr(prop, "setup_worker"):
@@ -227,7 +254,14 @@ def main(argv):
     max_per_mech = 25      # a frequent (e.g. known) mechanism must not crowd out a rare one
     per_mech = Counter()
     for i, recipe in enumerate(all_cases(prop, tier, seed)):
-        if i % K != k:
+        if mode:
+            # every stride-th case (which ones depends on the seed), shared among K workers
+            if i % stride != seed % stride or (i // stride) % K != k:
+                continue
+            if isinstance(recipe, dict) and recipe.get("k") == "repo-tests":
+                continue
+            counters["cases_in_mode_" + mode] += 1
+        elif i % K != k:
             continue
         if _hang["hangs"] >= 4:
             counters["cases_skipped_after_repeated_non_termination"] += 1
@@ -245,6 +279,8 @@ def main(argv):
         for v in obs.violations:
             per_mech[v["mech"]] += 1
             if per_mech[v["mech"]] <= max_per_mech and len(per_mech) <= 400:
+                if mode:
+                    v = dict(v, pymode=mode, msg="[%s] %s" % (PYMODE_TEXT[mode], v["msg"]))
                 violations.append(dict(v, recipe=recipe))
             counters["violations_total"] += 1
         if len(samples) < 2 and obs.nontrivial:
